@@ -696,10 +696,24 @@ func c06Leapers(e *c06env) {
 			r.Fail("R06-leapers", "board."+lp.table+" square loop covers 0..63", where, "", fmt.Sprintf("range [%d,%d]", lo, hi))
 			continue
 		}
+		// values computed once before the loop (hoisted masks): the function is run from its entry to the loop header
+		pre := map[ssa.Value]absint.Value{}
+		if entry := ti.fn.Blocks[0]; entry != header && entry.Dominates(header) {
+			if pouts := e.in.RunFrom(ti.fn, entry, nil, nil, map[*ssa.BasicBlock]bool{header: true}, absint.NewState()); len(pouts) == 1 && pouts[0].Stopped == header && !pouts[0].Undecided() {
+				for k, v := range pouts[0].Env {
+					pre[k] = v
+				}
+			}
+		}
 		for sq := 0; sq < 64; sq++ {
-			env := map[ssa.Value]absint.Value{ti.sqPhi: absint.MkInt(int64(sq), ti.sqPhi.Type())}
+			env := map[ssa.Value]absint.Value{}
+			for k, v := range pre {
+				env[k] = v
+			}
+			env[ti.sqPhi] = absint.MkInt(int64(sq), ti.sqPhi.Type())
 			if ti.sqNext != nil {
-				env = map[ssa.Value]absint.Value{ti.sqPhi: absint.MkInt(int64(sq-1), ti.sqPhi.Type()), ti.sqNext: absint.MkInt(int64(sq), ti.sqNext.Type())}
+				env[ti.sqPhi] = absint.MkInt(int64(sq-1), ti.sqPhi.Type())
+				env[ti.sqNext] = absint.MkInt(int64(sq), ti.sqNext.Type())
 			}
 			outs := e.in.RunFrom(ti.fn, header.Succs[0], header, env, map[*ssa.BasicBlock]bool{header: true}, absint.NewState())
 			cons := fmt.Sprintf("board.%s[sq]|sq=%d", lp.table, sq)
